@@ -84,10 +84,33 @@ def run(c):
             return 2 if 2 in f else 1
         return 2
 
+    def list_class(facts):
+        """which element decides a `for every element` verdict: the catalogue must contain, for every constructor with a list
+        branch, lists where only the first / only the last / a middle element fails, and lists of >= 2 that all hold"""
+        if 2 in facts or len(facts) < 2:
+            return None
+        if all(facts):
+            return "all-hold"
+        if not facts[0] and all(facts[1:]):
+            return "only-first-fails"
+        if not facts[-1] and all(facts[:-1]):
+            return "only-last-fails"
+        if len(facts) >= 3 and facts[0] and facts[-1]:
+            return "only-middle-fails"
+        return None
+
+    LIST_CLASSES = ("all-hold", "only-first-fails", "only-last-fails", "only-middle-fails")
+    list_cov = {}
+
     def compare(rules, alias):
         state["n"] += 1
         tuples = {}
         for r in rules:
+            if r["kind"] in ("list", "tail") and lifted.get(r["ctor"]) and not (r.get("load_err") or r.get("panic")):
+                for o in r["obs"]:
+                    k = list_class(o["facts"])
+                    if k:
+                        list_cov.setdefault(r["ctor"], set()).add(k)
             inp = {"where": r["src"], "pattern": r["pattern"], "gotypesalias": alias}
             if r.get("load_err") or r.get("panic"):
                 c.count()
@@ -105,7 +128,7 @@ def run(c):
                     c.nontriv((r["name"], r["kind"], o["site"], o.get("gover", "")))
                     if bool(exp) != o["verdict"]:
                         fid = None
-                        if r["kind"] == "list" and lifted.get(ctor) is False:
+                        if r["kind"] in ("list", "tail") and lifted.get(ctor) is False:
                             # known finding guard: a `$*xs` capture under a constructor without a list branch, and the
                             # faithful model (answer for "no expression" resp. for the slice node) reproduces the verdict
                             faithful = o["node"] if r["mode"] == "node" else o["nil"]
@@ -115,7 +138,7 @@ def run(c):
                             r["name"], " for every element of $*xs" if o["shape"] == "list" else ""),
                             input=site, expected=bool(exp), observed=o["verdict"], finding=fid)
                 # K tuple
-                if r["kind"] in ("list", "stmt", "single", "pair", "file") and ctor in lifted:
+                if r["kind"] in ("list", "tail", "stmt", "single", "first", "second", "seq", "pair", "file") and ctor in lifted:
                     shape = {"one": 0, "exprstmt": 1, "stmt": 2, "list": 3}.get(o["shape"])
                     if shape is None or 2 in o["facts"]:
                         continue
@@ -170,6 +193,13 @@ def run(c):
 
     for alias in ("0", "1"):
         compare(observe(alias), alias)
+    missing = {k: sorted(set(LIST_CLASSES) - v) for k, v in list_cov.items() if set(LIST_CLASSES) - v}
+    for k in sorted(k for k, v in lifted.items() if v and k not in list_cov):
+        missing[k] = list(LIST_CLASSES)
+    c.coverage["list_capture_classes"] = {k: sorted(v) for k, v in sorted(list_cov.items())}
+    if missing and g2:
+        c.obligation("harness-sanity:list-capture-catalogue", False,
+                     "constructors with a `$*xs` branch for which the catalogue has no list of some deciding-element class: %r" % missing)
     c.coverage["gotypesalias_modes"] = 2
     c.coverage["exhaustive"] = False
     c.coverage["constructors_with_list_branch"] = sorted(k for k, v in lifted.items() if v)
